@@ -18,7 +18,8 @@ def run(ctx):
                 "distinct_nontrivial = distinct replayed paths with at least one mutating call")
     ctx.assumptions += ["element type int, distinct pushed values; Values() copied immediately",
                         "nil-receiver calls only where documented",
-                        "SortedSliceSet is also instantiated with float64 (NaN, -Inf, -0/+0, +Inf); Equal is not judged for sets containing NaN (NaN != NaN)"]
+                        "SortedSliceSet is also instantiated with float64 (NaN, -Inf, -0/+0, +Inf); Equal is not judged for sets containing NaN (NaN != NaN)",
+                        "block concretisation: a sample of the set vectors is also replayed with every abstract value standing for a block of 70 / 3000 / 66000 concrete values (the specification is element-wise, so set sizes beyond 2^16 reach size thresholds of the implementation)"]
 
     # 1. exhaustive model checking of the design (refinement impl-shape -> abstract ring; set algebra).
     write_cfg(d / "RingMC_run.cfg", "Spec", {"Caps": "{0, 1, 2, 3, 4}", "MaxSteps": 12 if q else 16},
